@@ -93,6 +93,8 @@ fn api(job: &Job, parts: &[&str], sh: &Arc<Shared>) -> Option<Ticket> {
         ["signal", g] => job.signal(sig(g)), ["towait"] => job.to_wait(),
         ["delete"] => job.delete(), ["deletenow"] => job.delete_now(),
         ["run", id] => { let sh = sh.clone(); let id = id.to_string(); job.run(move |ctx| { sh.log(format!("run:{id}:{}:{}", cs_name(ctx.current), ctx.previous.map(cs_name).unwrap_or("-".into()))); }) }
+        // the internal continuation control is part of the public `Control` enum: anyone can send it
+        ["continue"] => job.control(watchexec_supervisor::job::Control::ContinueTryGracefulRestart),
         ["seterr"] => { let sh = sh.clone(); job.set_error_handler(move |_| sh.log("errh".into())) }
         ["unseterr"] => job.unset_error_handler(),
         _ => return None,
